@@ -109,3 +109,145 @@ Section SubscribeExec.
     simpl. apply H.
   Qed.
 End SubscribeExec.
+
+Ltac eq_goal := solve [reflexivity | eassumption].
+
+(* ---- subscribe() on a real document: the facts the refusal checks read are
+   computed with C04's get_operation / collect_for / field_definition *)
+Section SubscribeRequest.
+  Variable sch : schema.
+  Variable coerce_args : fdef -> selection -> outcome (list (str * pv)).
+  Variable world : world_t.
+  Variable tyres : str -> option (pv -> tyname_res).
+  Variable cfuel : nat.
+  Variable sels_eqb : list selection -> list selection -> bool.
+  Variable argkey_eqb : fdef * selection -> fdef * selection -> bool.
+  Hypothesis sels_eqb_sound : forall a b, sels_eqb a b = true -> a = b.
+  Hypothesis argkey_eqb_sound : forall a b, argkey_eqb a b = true -> a = b.
+  Variable fuel : nat.
+  (* Field.subscription_resolver is not None, by root type and field name *)
+  Variable has_sub_resolver : str -> str -> bool.
+  Variable c_created : cache.
+
+  Definition root_of (k : op_kind) : option str :=
+    match k with
+    | OpQuery => s_query sch
+    | OpMutation => s_mutation sch
+    | OpSubscription => s_subscription sch
+    end.
+
+  Definition is_subscription_op (k : op_kind) : bool :=
+    match k with OpSubscription => true | _ => false end.
+
+  (* first collected root field: key, nodes = next(iter(fields.items())); node = nodes[0] *)
+  Definition first_field (rt : str) (g : groups) : bool * bool :=
+    match g with
+    | (_, node :: _) :: _ =>
+        match field_definition sch rt (sel_name node) with
+        | Ok (Some (_, fd)) => (true, has_sub_resolver rt (f_name fd))
+        | _ => (false, false)
+        end
+    | _ => (false, false)
+    end.
+
+  Definition request_facts (d : document) (opname : option str) (vs : vars) (vars_ok streams : bool)
+    : sub_request :=
+    match get_operation d opname with
+    | Ok (k, sels) =>
+        match root_of k with
+        | Some rt =>
+            match collect_for sch (frag_table_of (doc_defs d)) vs cfuel rt sels with
+            | Ok g =>
+                SubRequest true vars_ok (is_subscription_op k) streams true (length g)
+                           (fst (first_field rt g)) (snd (first_field rt g))
+            | _ => SubRequest true vars_ok (is_subscription_op k) streams false 0 false false
+            end
+        | None => SubRequest false vars_ok false streams false 0 false false
+        end
+    | _ => SubRequest false vars_ok false streams false 0 false false
+    end.
+
+  Definition subscribe_exec (d : document) (opname : option str) (vs : vars) (vars_ok streams : bool)
+             (events : list pv) :=
+    subscribe cache pv error c_created (request_facts d opname vs vars_ok streams) events.
+
+  (* every way subscribe() can end for a document, read off the document:
+     refusals happen with the resolver not called and nothing consumed, and say
+     what was wrong with the request; otherwise the operation is a subscription
+     with exactly one root field that has a subscription resolver, and the
+     response stream is the per-event fresh execution of its selection *)
+  Theorem subscribe_exec_spec d opname vs vars_ok streams events :
+    match subscribe_exec d opname vs vars_ok streams events with
+    | (Refused r, called, consumed) =>
+        called = false /\ consumed = 0 /\
+        match r with
+        | RefInvalidOperation =>
+            (forall k sels, get_operation d opname = Ok (k, sels) -> root_of k = None)
+        | RefVariables => vars_ok = false
+        | RefNotSubscription =>
+            exists k sels, get_operation d opname = Ok (k, sels) /\ is_subscription_op k = false
+        | RefRuntime => streams = false
+        | RefDirectiveArguments =>
+            exists sels rt, get_operation d opname = Ok (OpSubscription, sels) /\
+              s_subscription sch = Some rt /\
+              forall g, collect_for sch (frag_table_of (doc_defs d)) vs cfuel rt sels <> Ok g
+        | RefFieldCount =>
+            exists sels rt g, get_operation d opname = Ok (OpSubscription, sels) /\
+              s_subscription sch = Some rt /\
+              collect_for sch (frag_table_of (doc_defs d)) vs cfuel rt sels = Ok g /\ length g <> 1
+        | RefNoFieldDef | RefNoResolver =>
+            exists sels rt kn, get_operation d opname = Ok (OpSubscription, sels) /\
+              s_subscription sch = Some rt /\
+              collect_for sch (frag_table_of (doc_defs d)) vs cfuel rt sels = Ok [kn]
+        end
+    | (Started s0, called, consumed) =>
+        called = true /\ consumed = 0 /\ vars_ok = true /\ streams = true /\
+        exists sels rt key node nodes k fd,
+          get_operation d opname = Ok (OpSubscription, sels) /\ s_subscription sch = Some rt /\
+          collect_for sch (frag_table_of (doc_defs d)) vs cfuel rt sels = Ok [(key, node :: nodes)] /\
+          field_definition sch rt (sel_name node) = Ok (Some (k, fd)) /\
+          has_sub_resolver rt (f_name fd) = true /\
+          s0 = SubState (ExecState c_created []) events 0 [] /\
+          (cache_inv sch (frag_table_of (doc_defs d)) vs coerce_args cfuel c_created ->
+           snd (drain cache pv (outcome pv) error
+                  (run_c sch (frag_table_of (doc_defs d)) vs coerce_args world tyres cfuel sels_eqb argkey_eqb fuel rt sels) s0)
+           = map (fresh_result sch (frag_table_of (doc_defs d)) vs coerce_args world tyres cfuel fuel rt sels) events)
+    end.
+  Proof.
+    unfold subscribe_exec, request_facts, subscribe.
+    destruct (get_operation d opname) as [[k sels]| |a b|a] eqn:Eg;
+      cbn [sq_operation_found negb];
+      try (repeat split; intros k0 sels0 H0; discriminate).
+    destruct (root_of k) as [rt|] eqn:Er.
+    2:{ cbn [sq_operation_found negb]. repeat split. intros k0 sels0 H0. inversion H0; subst. exact Er. }
+    destruct (collect_for sch (frag_table_of (doc_defs d)) vs cfuel rt sels) as [g| |a b|a] eqn:Ec;
+      cbn [sq_operation_found sq_variables_ok sq_is_subscription sq_runtime_streams sq_root_collect_ok
+           sq_root_fields sq_field_defined sq_has_subscription_resolver negb].
+    all: destruct vars_ok; cbn [negb]; [|repeat split; reflexivity].
+    all: destruct k; cbn [is_subscription_op negb];
+      try (repeat split; exists OpQuery, sels; split; eq_goal);
+      try (repeat split; exists OpMutation, sels; split; eq_goal).
+    all: destruct streams; cbn [negb]; [|repeat split; reflexivity].
+    all: cbn [root_of] in Er.
+    all: try (repeat split; exists sels, rt; split; [eq_goal|]; split; [exact Er|];
+              intros g0 Hg0; first [discriminate|rewrite Ec in Hg0; discriminate]).
+    (* collect succeeded: g *)
+    destruct (length g =? 1) eqn:El; cbn [negb].
+    2:{ repeat split. exists sels, rt, g. split; [eq_goal|]. split; [exact Er|]. split; [eq_goal|].
+        apply Nat.eqb_neq. exact El. }
+    apply Nat.eqb_eq in El. destruct g as [|kn [|kn2 g]]; try discriminate.
+    unfold first_field. destruct kn as [key [|node nodes]].
+    { cbn [fst snd negb]. repeat split. exists sels, rt, (key, []). repeat split; eq_goal. }
+    destruct (field_definition sch rt (sel_name node)) as [[[kf fd]|]| |a b|a] eqn:Ef; cbn [fst snd negb];
+      try (repeat split; exists sels, rt, (key, node :: nodes); repeat split; eq_goal).
+    destruct (has_sub_resolver rt (f_name fd)) eqn:Eh; cbn [negb].
+    2:{ repeat split. exists sels, rt, (key, node :: nodes). repeat split; eq_goal. }
+    repeat split. exists sels, rt, key, node, nodes, kf, fd.
+    split; [eq_goal|]. split; [exact Er|]. split; [eq_goal|]. split; [eq_goal|].
+    split; [eq_goal|]. split; [reflexivity|].
+    intros Hinv.
+    exact (proj1 (isolation_exec sch (frag_table_of (doc_defs d)) vs coerce_args world tyres cfuel
+                    sels_eqb argkey_eqb sels_eqb_sound argkey_eqb_sound fuel rt sels
+                    (SubState (ExecState c_created []) events 0 []) Hinv)).
+  Qed.
+End SubscribeRequest.
